@@ -1122,6 +1122,8 @@ func ExecuteChecked(t *testing.T, plan *Plan, opt ExecOpt) *RunResult {
 	return res
 }
 
+var panicRe = regexp.MustCompile(`(?m)^panic: `)
+var unlockRe = regexp.MustCompile(`(?m)^fatal error: sync: R?Unlock of unlocked RWMutex`)
 var overflowRe = regexp.MustCompile(`(?m)^fatal error: stack overflow`)
 var libFrameRe = regexp.MustCompile(`(?m)^github\.com/openziti/storage/(?:boltz|ast)\.([^\s(]*(?:\([^)]*\))?[^\s(]*)\(`)
 var fatalRe = regexp.MustCompile(`(?m)^fatal error: (concurrent map[^\n]*)`)
@@ -1144,6 +1146,17 @@ func crashViolation(output string) *Violation {
 	if m := fatalRe.FindStringSubmatchIndex(output); m != nil {
 		return &Violation{Props: []string{"C18"}, Oracle: "crash", Sig: "fatal:" + strings.ReplaceAll(output[m[2]:m[3]], " ", "-"),
 			Detail: "the process died with an unrecoverable runtime error while steps of a race window ran concurrently:\n" + excerptFrom(m[0])}
+	}
+	if m := panicRe.FindStringIndex(output); m != nil && strings.Contains(output[m[0]:], ").processPostCommit(") && !strings.Contains(output[m[0]:], "dsim/dsim.(*Run).") {
+		// the library's own delivery of an entity event panicked on the goroutine that commits (a Batch timer goroutine
+		// is not a task, nobody can recover there): an event that is not delivered "exactly once, with the entity's state"
+		return &Violation{Props: []string{"C08"}, Oracle: "crash", Sig: "fatal:panic-in-post-commit-delivery",
+			Detail: "the process died with a panic inside the library's post-commit event delivery:\n" + excerptFrom(m[0])}
+	}
+	if m := unlockRe.FindStringIndex(output); m != nil && strings.Contains(output[m[0]:], "boltz.(*DbImpl).") {
+		// the reload lock released by somebody who does not hold it: the lock discipline around snapshot / restore
+		return &Violation{Props: []string{"C17"}, Oracle: "crash", Sig: "fatal:unlock-of-unlocked-reload-lock",
+			Detail: "the process died releasing DbImpl's reload lock without holding it:\n" + excerptFrom(m[0])}
 	}
 	if m := overflowRe.FindStringIndex(output); m != nil {
 		// unbounded recursion: the first library frame of the overflowing goroutine names it. Every history property
